@@ -72,6 +72,30 @@ M = [
  ("M22-opt-marker-any-list", "src/parser/mod.rs", ["C04"],
   [("        if let Some(0x01u8) = input.first() {", "        if let Some(0x01u8 | 0x00u8) = input.first() {")],
   "a 0x00 byte is also taken as 'optional field absent'"),
+ ("M23-done-recursion-without-reset", "src/transport/decode.rs", ["C05"],
+  [("                // reset and let's go again\n                self.reset(buf);\n                return self.push_byte(buf, b);", "                // reset and let's go again\n                return self.push_byte(buf, b);")],
+  "after a delivered frame the next byte recurses without leaving the Done state: unbounded recursion (process abort) - exercises the crash attribution path"),
+ ("M24-invalid-esc-spins", "src/transport/decode.rs", ["C05"],
+  [("                        // invalid escape sequence\n\n                        self.reset(buf);", "                        // invalid escape sequence\n                        #[allow(clippy::empty_loop)]\n                        while payload[0] == 0x1c {}\n                        self.reset(buf);")],
+  "an invalid escape sequence starting with 1c makes the decoder spin forever - exercises the hang watchdog"),
+ ("M25-streaming-parser-allocates", "src/parser/streaming.rs", ["C06"],
+  [("    pub fn new(input: &'i [u8]) -> Self {\n        Parser {", "    pub fn new(input: &'i [u8]) -> Self {\n        #[cfg(feature = \"alloc\")]\n        if input.len() > 300 {\n            let scratch: alloc::vec::Vec<u8> = input.to_vec();\n            core::mem::drop(scratch);\n        }\n        Parser {")],
+  "the streaming parser makes a heap copy of inputs longer than 300 bytes"),
+ ("M26-arraybuf-push-off-by-one", "src/util.rs", ["C18","C16"],
+  [("        if self.num_elements == N {\n            Err(OutOfMemory)\n        } else {", "        if self.num_elements + 1 >= N && N > 64 {\n            Err(OutOfMemory)\n        } else {")],
+  "ArrayBuf::push refuses the last slot of buffers larger than 64 bytes"),
+ ("M27-list-end-one-early", "src/parser/streaming.rs", ["C09"],
+  [("                    self.pending_list_entries = u64::from(glr.num_vals) + 2;", "                    self.pending_list_entries = u64::from(glr.num_vals) + 2 - u64::from(glr.num_vals == 16);")],
+  "for a list of exactly 16 entries the streaming parser expects one entry fewer (TLF boundary case)"),
+ ("M28-file-target-swallows-discarded", "src/lib.rs", ["C10"],
+  [("    fn parse_from(value: ReadDecodedRes<'i, ReadErr>) -> Result<Self, Self::Error> {\n        Ok(parse(value?)?)\n    }", "    fn parse_from(value: ReadDecodedRes<'i, ReadErr>) -> Result<Self, Self::Error> {\n        match value {\n            Err(ReadDecodedError::DecodeErr(DecodeErr::DiscardedBytes(n))) if n < 4 => Ok(parse(&[])?),\n            v => Ok(parse(v?)?),\n        }\n    }")],
+  "reading a File swallows a discarded-bytes report of fewer than 4 bytes and returns an empty file instead"),
+ ("M29-eh-source-wouldblock-as-other", "src/util.rs", ["C11"],
+  [("            nb::Error::WouldBlock => ErrKind::WouldBlock,\n            _ => ErrKind::Other,", "            nb::Error::WouldBlock => ErrKind::Other,\n            _ => ErrKind::Other,")],
+  "the embedded-hal source classifies would-block as a hard error (decoder reset on every idle poll)"),
+ ("M30-crc-field-one-byte-rejected", "src/parser/complete.rs", ["C09"],
+  [("        let (input, crc) = u16::parse(input)?;\n        let (input, _) = EndOfSmlMessage::parse(input)?;\n\n        // validate crc16", "        if input.first() == Some(&0x62) {\n            return Err(ParseError::CrcMismatch);\n        }\n        let (input, crc) = u16::parse(input)?;\n        let (input, _) = EndOfSmlMessage::parse(input)?;\n\n        // validate crc16")],
+  "the allocating parser rejects the (legal) one-byte CRC field"),
 ]
 os.makedirs("/verif/mutations", exist_ok=True)
 index = []
